@@ -213,10 +213,61 @@ class C10(Prop):
             if bad:
                 viol.append(("stress", "free-running stress (threads=%d incs=%d value=%d mode=%d): %s" % (t, n, v, mode, "; ".join(bad)),
                              dict(stress_line="X %d %d %d %d" % (t, n, v, mode), driver_out=line)))
+        viol += self._hist_stress(ctx, core, big)
         ctx["coverage"]["stress_runs"] = len(confs)
         ctx["coverage"]["stress_increments"] = sum(t * n for t, n, _, _ in confs)
         ctx["coverage"]["stress_flushes"] = flushes
         ctx["coverage"]["stress_nonzero_deltas"] = nonzero
+        return viol
+
+    def _hist_stress(self, ctx, core, big):
+        """free-running histogram stress (sampling off): 2-3 recorder threads record distinct integer values into 1-2
+        histogram keys while one thread runs forwarder iterations (20-50 during the recording), then flush until empty.
+        Judged on the parsed payloads: no value twice, no fabricated value, and values never sent at most
+        recorders x (iterations begun while recording) - that much is the open C05 finding (a push landing in a block
+        a concurrent clear_with has just detached) surfacing through AtomicHistogram::flush; anything above is a violation."""
+        confs = [(3, 300000, 2, 0, 5000, 700), (2, 250000, 1, 1, 5000, 700), (3, 150000, 2, 1, 4000, 1000)]
+        if big:
+            confs += [(3, 400000, 1, 0, 6000, 500), (3, 300000, 2, 1, 5000, 700), (2, 400000, 2, 0, 5000, 500)]
+        lines = ["Y %d %d %d %d %d %d" % c for c in confs]
+        rc, outs, err = core.run_impl(ctx["binpath"], lines, timeout=300)
+        if rc != 0 or len(outs) != len(lines):
+            raise core.MachineryBroken("histogram stress driver failed: rc=%s %s" % (rc, err[-500:]))
+        viol, tot, lost_all, during_all, bound_all = [], 0, 0, 0, 0
+        for conf, line in zip(confs, outs):
+            f = line.split()
+            total, dups, fab, lost, during, flushes = (int(x) for x in f[1:7])
+            bound = conf[0] * during
+            tot += total
+            lost_all += lost
+            during_all += during
+            bound_all += bound
+            bad = []
+            if dups:
+                bad.append("%d values were sent in more than one flush" % dups)
+            if fab:
+                bad.append("%d values were sent that were never recorded" % fab)
+            if lost > bound:
+                bad.append("%d of %d recorded values were never sent (tolerated for the open late-claim finding: at most %d = "
+                           "%d recorders x %d iterations begun while recording)" % (lost, total, bound, conf[0], during))
+            if bad:
+                viol.append(("stress", "free-running histogram stress, sampling off (recorders=%d values/recorder=%d keys=%d dist=%d): %s"
+                             % (conf[0], conf[1], conf[2], conf[3], "; ".join(bad)),
+                             dict(stress_line="Y %d %d %d %d %d %d" % conf, driver_out=line)))
+        cov = ctx["coverage"]
+        cov["hist_stress_runs"] = len(confs)
+        cov["hist_stress_values"] = tot
+        cov["hist_stress_iterations_while_recording"] = during_all
+        cov["hist_stress_values_never_sent"] = lost_all
+        cov["hist_stress_never_sent_bound"] = bound_all
+        if lost_all and not viol:
+            try:
+                known = [k for k in core.load_known() if k.get("id") == "C10-record-vs-flush-late-claim" and k["status"] == "open"]
+            except Exception:
+                known = []
+            if known:
+                print("KNOWN-FINDING: property=C10 C10-record-vs-flush-late-claim (%s; %d of %d values never sent this run, bound %d)"
+                      % (known[0]["what"], lost_all, tot, bound_all))
         return viol
 
     # ------------------------------------------------------------------ driver protocol
@@ -411,20 +462,33 @@ class C10(Prop):
         return [c, [None if f is None else f["msgs"] for f in o["fl"]]]
 
     def shrink(self, c):
+        """big cuts first (halves, quarters), then single deletions; capped so that one shrinking round stays cheap"""
         out = []
+
+        def cuts(xs):
+            n = len(xs)
+            res = []
+            for parts in (2, 4):
+                if n >= parts * 2:
+                    step = n // parts
+                    for i in range(parts):
+                        res.append(xs[:i * step] + xs[(i + 1) * step:])
+            for i in range(n):
+                res.append(xs[:i] + xs[i + 1:])
+            return res
+
         if c["kind"] == "S":
-            s = c["sched"]
-            for i in range(len(s)):
-                out.append(dict(c, sched=s[:i] + s[i + 1:]))
+            for s2 in cuts(c["sched"])[:24]:
+                out.append(dict(c, sched=s2))
             for t, p in enumerate(c["progs"]):
                 for i in range(len(p)):
                     q = [list(x) for x in c["progs"]]
                     del q[t][i]
                     out.append(dict(c, progs=q))
-            return out
+            return out[:40]
         ops = c["ops"]
-        for i in range(len(ops)):
-            out.append(dict(c, ops=ops[:i] + ops[i + 1:]))
+        for o2 in cuts(ops)[:30]:
+            out.append(dict(c, ops=o2))
         if c["prefix"] is not None:
             out.append(dict(c, prefix=None))
         if c["glabels"]:
@@ -439,10 +503,10 @@ class C10(Prop):
             out.append(dict(c, max=8192))
         if c["lp"]:
             out.append(dict(c, lp=0))
-        for i, o in enumerate(ops):
+        for i, o in enumerate(ops[:20]):
             if len(o) == 3 and isinstance(o[2], int) and abs(o[2]) > 9:
                 out.append(dict(c, ops=ops[:i] + [[o[0], o[1], o[2] // 10]] + ops[i + 1:]))
-        return out
+        return out[:48]
 
 
 PROP = C10()
